@@ -146,11 +146,17 @@ pub fn judge(
                     });
                 }
             }
-            (Verdict::Error { .. }, Some(k)) => {
+            (Verdict::Error { end }, Some(k)) => {
                 f.push(Finding {
                     property: "C01",
                     at: it.start,
                     what: format!("subject yielded Ok({k}) {}..{} but no pattern matches a non-empty prefix there", it.start, it.end),
+                });
+                // the same observation under C02's clause: where no pattern matches, exactly one Err is due
+                f.push(Finding {
+                    property: "C02",
+                    at: it.start,
+                    what: format!("no pattern matches a non-empty prefix at {}: an Err {}..{end} is due, the subject yielded Ok({k}) {}..{}", it.start, it.start, it.start, it.end),
                 });
             }
         }
